@@ -12,6 +12,8 @@ func init() {
 	vRegister("vST_race", vST_race)
 	vRegister("vST_mutex", vST_mutex)
 	vRegister("vST_chan", vST_chan)
+	vRegister("vST_join", vST_join)
+	vRegister("vST_join2", vST_join2)
 }
 
 func vST_atomic() {
@@ -59,5 +61,154 @@ func vST_chan() {
 	vRun()
 	vAssume(vAllDone())
 	vAssert(got[0] == 7 && got[1] == 9, "a channel is FIFO")
+	vCover("end")
+}
+
+type vSTcall struct {
+	dups  int
+	chans []chan int
+}
+type vSTgroup struct {
+	mu sync.Mutex
+	m  map[string]*vSTcall
+}
+
+var vST_mark [8]bool
+
+func vST_join() {
+	vST_mark = [8]bool{}
+	g := &vSTgroup{}
+	hit := false
+	got := 0
+	mode := vCase("mode")
+	vGo("a", func() {
+		ch := make(chan int, 1)
+		g.mu.Lock()
+		if mode != 4 {
+			if g.m == nil {
+				g.m = make(map[string]*vSTcall)
+			}
+		} else {
+			g.m = make(map[string]*vSTcall)
+		}
+		c := &vSTcall{chans: []chan int{ch}}
+		g.m["k"] = c
+		g.mu.Unlock()
+		vYield()
+		g.mu.Lock()
+		vST_mark[0] = true
+		delete(g.m, "k")
+		vST_mark[1] = true
+		if mode != 3 {
+			n := len(c.chans)
+			vST_mark[2] = true
+			if n == 2 {
+				vST_mark[3] = true
+			}
+			for _, x := range c.chans {
+				vST_mark[4] = true
+				x <- 7
+				vST_mark[5] = true
+			}
+		}
+		vST_mark[6] = true
+		g.mu.Unlock()
+		if mode != 1 && mode != 3 {
+			<-ch
+		}
+	})
+	vGo("b", func() {
+		ch := make(chan int, 1)
+		g.mu.Lock()
+		if mode != 4 {
+			if g.m == nil {
+				g.m = make(map[string]*vSTcall)
+			}
+		}
+		if c, ok := g.m["k"]; ok {
+			hit = true
+			c.dups++
+			c.chans = append(c.chans, ch)
+			g.mu.Unlock()
+			if mode != 2 && mode != 3 {
+				got = <-ch
+			}
+			return
+		}
+		g.mu.Unlock()
+	})
+	vRun()
+	if hit && vThreadDone(0) {
+		vCover("hit-a-done")
+	}
+	if hit && vThreadDone(1) {
+		vCover("hit-b-done")
+	}
+	if hit && vAllDone() {
+		vCover("joined-and-done")
+	}
+	if hit && vThreadDone(1) {
+		if vST_mark[0] {
+			vCover("m0")
+		}
+		if vST_mark[1] {
+			vCover("m1")
+		}
+		if vST_mark[2] {
+			vCover("m2")
+		}
+		if vST_mark[3] {
+			vCover("m3")
+		}
+		if vST_mark[4] {
+			vCover("m4")
+		}
+		if vST_mark[5] {
+			vCover("m5")
+		}
+		if vST_mark[6] {
+			vCover("m6")
+		}
+	}
+	_ = got
+	vCover("end")
+}
+
+func vST_join2() {
+	g := &vSTgroup{}
+	hit := false
+	step := vCase("step")
+	vGo("a", func() {
+		g.mu.Lock()
+		g.m = make(map[string]*vSTcall)
+		c := &vSTcall{chans: []chan int{make(chan int, 1)}}
+		g.m["k"] = c
+		g.mu.Unlock()
+		vYield()
+		g.mu.Lock()
+		delete(g.m, "k")
+		g.mu.Unlock()
+	})
+	vGo("b", func() {
+		ch := make(chan int, 1)
+		g.mu.Lock()
+		if c, ok := g.m["k"]; ok {
+			hit = true
+			if step >= 1 {
+				c.dups++
+			}
+			if step >= 2 {
+				_ = len(c.chans)
+			}
+			if step >= 3 {
+				c.chans = append(c.chans, ch)
+			}
+		}
+		g.mu.Unlock()
+	})
+	vRun()
+	if hit && vAllDone() {
+		vCover("hit-done")
+	}
 	vCover("end")
 }
